@@ -119,7 +119,7 @@ def do_call(spec, cache):
                 for rec in spec["records"][idx]:
                     ws[idx].write(rec)
                 ws[idx].flush()
-            return {"ok": [hashlib.sha1(f.getvalue()).hexdigest() for f in fos]}
+            return {"ok": [hashlib.sha1(f.getvalue()).hexdigest() for f, w_ in zip(fos, ws) if w_ is not None]}
         if op == "read_container":
             rs = copy.deepcopy(spec["reader"]) if spec.get("reader") is not None else None
             return {"ok": [canon(to_wire(x)) for x in fastavro.reader(io.BytesIO(bytes.fromhex(spec["bytes"])), rs)]}
@@ -327,10 +327,17 @@ def directed_histories(run, tier, seed, pristine):
                 spec = {"op": "two_writers", "schema": None, "schemas": [sa, sb], "records": [ra, rb], "construct_order": co, "write_order": wo, "kwargs": kw}
                 got = do_call(copy.deepcopy(spec), {})
                 fresh = pristine.call(copy.deepcopy(spec))
-                alone = do_call(dict(copy.deepcopy(spec), construct_order=[0, 1], write_order=[0, 1]), {})
+                # ground truth: each file written by a writer that is alone in a pristine interpreter
+                solo = []
+                for idx in (0, 1):
+                    one = pristine.call({"op": "two_writers", "schema": None, "schemas": [spec["schemas"][idx], spec["schemas"][idx]],
+                                         "records": [spec["records"][idx], []], "construct_order": [0], "write_order": [0],
+                                         "kwargs": [kw[idx], {}]})
+                    solo.append(one["ok"][0] if "ok" in one else one)
+                alone = {"ok": solo}
                 run.cov["evaluations"] += 1
                 run.tag("directed:two-writers")
-                if got != fresh or ("ok" in got and "ok" in alone and got["ok"] != alone["ok"]):
+                if got != fresh or got != alone:
                     run.fail({"construct_order": co, "write_order": wo, "kwargs": kw, "after_history": got, "fresh": fresh, "other_order": alone,
                               "tags": ["two-writers"]},
                              "two writers alive at once: the files written depend on the order in which the writers were constructed / used", kind="oracle")
